@@ -54,9 +54,9 @@ Proof.
 Qed.
 
 Ltac m3_unfold :=
+  unfold is_unitary, is_hermitian, is_idempotent in *;
   unfold retarder_spec, diattenuator_spec, rotated_element, projector3, rot3, diag3, m3_adj, m3_id, m3_ofR,
-         Cx.m3_mul, Cx.m3_apply, m3_set, m3_zero, Cx.m3_flat, m3_list, cx_flat, jvec3, is_unitary, is_hermitian,
-         is_idempotent in *;
+         Cx.m3_mul, Cx.m3_apply, m3_set, m3_zero, Cx.m3_flat, m3_list, cx_flat, jvec3 in *;
   cbv beta iota zeta delta [m3_set m3_zero Z.mul Z.add Pos.mul Pos.add Pos.succ Pos.add_carry flat_map app fst snd] in *.
 (** split an equality of nested tuples / lists of reals into scalar goals *)
 Ltac split_eq := repeat (match goal with
@@ -83,7 +83,7 @@ Proof.
   generalize (cs1 theta). intros Ht.
   unfold rotated_element. m3_unfold. cx_unfold. rewrite ?cos_neg, ?sin_neg.
   set (c := cos theta) in *. set (s := sin theta) in *. clearbody c s.
-  split_eq. Show. all: nsatz.
+  split_eq; nsatz.
 Qed.
 Theorem retarder_unitary (d theta : R) : is_unitary (retarder_spec d theta).
 Proof.
